@@ -12,9 +12,10 @@ pub fn contract_enumerated_parser<C: Ctx>(cx: &mut C, max_root: usize, max_add: 
     // 0 none, 1 `-- c --` after each comma, 2 `/* c */` after each comma, 3 `--c--` inside the parentheses right before the number,
     // 4 nested block comment whose inner opener is followed by `/`,
     // 5 / 6 a block / line comment glued (no white-space) to the token before it: after `{`, after an identifier, after `)`, after `...`
-    let comments = cx.choose(7);
-    let between = ["", " -- c -- ", " /* c */ ", "", " /* a /*/ b */ c */ ", "", ""][comments];
-    let glued = ["", "", "", "", "", "/*g*/", "--g--"][comments];
+    // 7 a line comment that runs to the end of the line and contains multi-byte characters (and a word that would lex as an item)
+    let comments = cx.choose(8);
+    let between = ["", " -- c -- ", " /* c */ ", "", " /* a /*/ b */ c */ ", "", "", " -- temperature in \u{b0}C, \u{20ac} zz\n "][comments];
+    let glued = ["", "", "", "", "", "/*g*/", "--g--", ""][comments];
     let in_parens = if comments == 3 { "--c--" } else { "" };
     let n_root = 1 + cx.choose(max_root);
     let marker = cx.any_bool();
